@@ -305,6 +305,15 @@ PER_LIT = st.one_of(lit_path().filter(_plain_path),
                     lit_path().filter(_plain_path).map(lambda l: ("dqstr", '"%s"' % l[1], l[1])))
 
 
+def _uniq(j, lit):
+    """give the j-th `do per` path its own first segment so that the shares they name cannot collide"""
+    cls, text, val = lit
+    q = text[0] if text[0] in "\"'" else ""
+    body = text.strip("\"'")
+    body = (".u%d%s" % (j, body)) if body.startswith(".") else ("u%d.%s" % (j, body))
+    return (cls, q + body + q, body)
+
+
 def expected(text, family, intended):
     """reference value in the context family, cross-checked with the construction"""
     if family == "data":
@@ -337,7 +346,7 @@ SCRIPT = st.fixed_dictionaries({
     "inc": st.lists(INC_LIT, min_size=1, max_size=2),
     "with": st.lists(ANY_LIT, min_size=1, max_size=3),
     "cum": st.lists(ANY_LIT, min_size=1, max_size=2),
-    "per": st.lists(PER_LIT, min_size=1, max_size=2),
+    "per": st.lists(PER_LIT, min_size=1, max_size=2).map(lambda ls: [_uniq(j, l) for j, l in enumerate(ls)]),
     "goal": st.lists(GOAL_LIT, min_size=1, max_size=3),
     "egoal": st.lists(REAL_LIT, min_size=1, max_size=1),
     "tol": st.lists(NUM_LIT, min_size=1, max_size=2),
